@@ -1061,10 +1061,9 @@ class Corr:
         if self.N != 1:
             return content_string
 
-        if print_range[1]:
-            print_range[1] += 1
+        stop = print_range[1] + 1 if print_range[1] else None
         content_string += 'x0/a\tCorr(x0/a)\n------------------\n'
-        for i, sub_corr in enumerate(self.content[print_range[0]:print_range[1]]):
+        for i, sub_corr in enumerate(self.content[print_range[0]:stop]):
             if sub_corr is None:
                 content_string += str(i + print_range[0]) + '\n'
             else:
